@@ -1,6 +1,8 @@
 import Zc.Model.Dns
 import Zc.Gen.History
 import Zc.Gen.LookupLoop
+import Zc.Gen.QueryTtl
+import Zc.Gen.Outgoing
 /-! C13 — known answers and duplicate-question suppression.
 
 * `QuestionHistory` (`_history.py`)
@@ -50,6 +52,9 @@ def History.suppresses (h : History) (q : Question) (now : Int) (known : List Re
 /-- `QuestionHistory.async_expire` -/
 def History.expire (h : History) (now : Int) : History := h.filter (fun e => !(Gen.History.expire_old now e.time))
 
+/-- what `AsyncEngine._async_cache_cleanup` does to the history every 10 s: `question_history.async_expire(now)` -/
+def History.cleanupTick (h : History) (now : Int) : History := h.expire (Gen.History.cleanup_expire_time now)
+
 /-! ### known answers -/
 
 /-- `cache.get_all_by_details(name, type, class)` over the list of cached records -/
@@ -60,16 +65,33 @@ def matching (cache : List Rec) (name : String) (type cls : Nat) : List Rec :=
 def knownAnswers (cache : List Rec) (name : String) (type cls : Nat) (now : Int) : List Rec :=
   (matching lower cache name type cls).filter (fun r => !(r.isStale now))
 
-/-- one question as handed to `DNSOutgoing`: the question and its known answers -/
+/-- what `add_answer_at_time(record, t)` + `_write_ttl` put on the wire for a known answer handed over with time `t`:
+nothing when the record is refused (`t ≠ 0` and expired at `t`), else the record with the TTL field `_write_ttl` writes
+(the record's own TTL when `t = 0`, the remaining TTL at `t` otherwise) — both decisions are translated leaves -/
+def wireAnswerAt (t : Int) (r : Rec) : Option (Rec × Nat) :=
+  if Gen.Outgoing.answer_accepted true t (r.isExpired t) then
+    some (r, (Gen.Outgoing.ttl_field r.ttl t (r.remainingTtl t)).toNat)
+  else none
+
+/-- the wire form at the true time `now ≠ 0` (specification) -/
+def wireAnswer (now : Int) (r : Rec) : Option (Rec × Nat) :=
+  if r.isExpired now then none else some (r, r.remainingTtl now)
+
+/-- the time a browser query hands to `add_answer_at_time`: `generate_service_query` → `_group_ptr_queries_with_known_answers`
+→ `_DNSPointerOutgoingBucket(now_millis, …)` → `self.now_millis` → `add_answer_at_time(answer, self.now_millis)` -/
+def browserAnswerTime (now : Int) : Int :=
+  Gen.QueryTtl.bucket_answer_time (Gen.QueryTtl.bucket_now_field (Gen.QueryTtl.bucket_ctor_time (Gen.QueryTtl.group_call_time now)))
+
+/-- the time a lookup hands to `add_answer_at_time` -/
+def lookupAnswerTime (now : Int) : Int := Gen.QueryTtl.lookup_answer_time now
+
+/-- one question as handed to `DNSOutgoing`: the question, its known answers (what the history remembers), and what the
+encoder puts on the wire for them (record, TTL field) -/
 structure QOut where
   q : Question
   known : List Rec
+  wire : List (Rec × Nat)
   deriving Repr, Inhabited
-
-/-- what `add_answer_at_time(record, now)` + `_write_ttl` put on the wire for a known answer:
-nothing when the record is expired, else the record with its remaining TTL (`now ≠ 0`) -/
-def wireAnswer (now : Int) (r : Rec) : Option (Rec × Nat) :=
-  if r.isExpired now then none else some (r, r.remainingTtl now)
 
 /-! ### `generate_service_query` -/
 
@@ -84,7 +106,7 @@ def askType (cache : List Rec) (h : History) (now : Int) (qu : Bool) (ty : Strin
   let q : Question := { name := ty, type := Gen.typePtr, class_ := Gen.classIn, unique := qu }
   let known := knownAnswers lower cache ty Gen.typePtr Gen.classIn now
   if !qu && h.suppresses lower q now known then (none, h)
-  else (some { q, known }, if !qu then h.add lower q now known else h)
+  else (some { q, known, wire := known.filterMap (wireAnswerAt (browserAnswerTime now)) }, if !qu then h.add lower q now known else h)
 
 def serviceQuery (cache : List Rec) (now : Int) (qu : Bool) : List String → History → List QOut × History
   | [], h => ([], h)
@@ -116,9 +138,11 @@ def maxBucketSize : Nat := Gen.maxMsgTypical - Gen.dnsPacketHeaderLen
 
 /-! ### the responder hears a question (`async_response`) -/
 
-/-- QM questions the responder can answer are recorded with the known answers of the query -/
-def responderHears (h : History) (q : Question) (now : Int) (known : List Rec) : History :=
-  if !q.unique then h.add lower q now known else h
+/-- `QueryHandler.async_response`: only questions the host has an answer strategy for (`canAnswer`: it is authoritative for
+them) reach the loop that records; there a QM question is recorded with the known answers of the whole (possibly multi-packet)
+query — before and independently of `_answer_question`.  Not modelled: `known` is the union over the non-probe packets. -/
+def responderHears (canAnswer : Bool) (h : History) (q : Question) (now : Int) (known : List Rec) : History :=
+  if canAnswer && !q.unique then h.add lower q now known else h
 
 /-! ### service-info lookup: `_add_question_with_known_answers`, `_generate_request_query` -/
 
@@ -128,9 +152,9 @@ def addQuestion (cache : List Rec) (h : History) (now : Int) (qu : Bool) (name :
   if skipIfKnown && !known.isEmpty then (none, h)
   else
     let q : Question := { name, type, class_ := cls, unique := qu }
-    if qu then (some { q, known }, h)
+    if qu then (some { q, known, wire := known.filterMap (wireAnswerAt (lookupAnswerTime now)) }, h)
     else if h.suppresses lower q now known then (none, h)
-    else (some { q, known }, h.add lower q now known)
+    else (some { q, known, wire := known.filterMap (wireAnswerAt (lookupAnswerTime now)) }, h.add lower q now known)
 
 /-- `_generate_request_query`: SRV, TXT (skipped when known), A, AAAA of `server or name` -/
 def requestQuery (cache : List Rec) (h : History) (now : Int) (qu : Bool) (name server : String) : List QOut × History :=
